@@ -10,7 +10,7 @@ use serde::Deserialize;
 pub struct Finding {
     pub id: String,
     pub property: String,
-    /// exact clause, or a prefix when it ends with `*`
+    /// exact clause; a prefix when it ends with `*`; a substring when it starts and ends with `*`
     pub clause: String,
     /// exact field, or a prefix when it ends with `*`; empty = any
     #[serde(default)]
@@ -43,6 +43,8 @@ pub fn load(path: &std::path::Path) -> Result<KnownFile, String> {
 fn pat(p: &str, s: &str) -> bool {
     if p.is_empty() {
         true
+    } else if p.len() >= 2 && p.starts_with('*') && p.ends_with('*') {
+        s.contains(&p[1..p.len() - 1])
     } else if let Some(pre) = p.strip_suffix('*') {
         s.starts_with(pre)
     } else {
